@@ -132,3 +132,16 @@ Example rotation_example :
   record_run true {| dir := Some udata; old := Some (Dir []) |} r0
   = ({| dir := fresh []; old := Some udata |}, OK).
 Proof. vm_compute. reflexivity. Qed.
+
+(* --host path *)
+Lemma host_run_foreign_dir w r : foreign (dir w) = true -> record_run_host true w r = (w, Error).
+Proof.
+  intro F. unfold record_run_host. rewrite create_spec.
+  destruct (dir w) as [t|] eqn:D; [|discriminate].
+  rewrite (foreign_not_removable _ F). reflexivity.
+Qed.
+Lemma host_run_foreign_old w r : foreign (old w) = true -> old (fst (record_run_host true w r)) = old w.
+Proof.
+  intro F. unfold record_run_host. rewrite create_spec.
+  destruct (dir w) as [t|]; [destruct (can_remove (Some t))|]; rewrite ?F; reflexivity.
+Qed.
